@@ -16,12 +16,14 @@
 (*                the reference read result - and (in the states that are  *)
 (*                not on the last level) of EVERY result value that GetOK  *)
 (*                accepts                                                  *)
-(* An abstract step is not only the reference result: with Variants = TRUE *)
-(* TLC also tries every list that differs from it in ONE cell / one        *)
-(* uniqueness flag / one pointer-target entry and that the step relation   *)
-(* (WriteOK, MergeOK, InsertOK ...) ACCEPTS; since these relations and     *)
-(* gamma are cell-wise, Sound on the states reached this way shows that    *)
-(* the step relations accept only sound successors (they are not too weak).*)
+(* The abstract successor of a step is the reference result, but with       *)
+(* Variants = TRUE every list that differs from it in ONE cell / one        *)
+(* uniqueness flag / one pointer-target entry and that the step relation    *)
+(* (WriteOK, MergeOK, InsertOK ...) ACCEPTS is judged in the step as well:  *)
+(* it must cover EVERY concrete successor (VarOK; the verdict is kept in    *)
+(* the variable `ok`).  These relations and gamma are cell-wise, so this    *)
+(* shows that the step relations accept only sound successors (they are     *)
+(* not too weak).                                                           *)
 (* The concrete step picks every concretisation: target, instance, offset, *)
 (* member of gamma(value), "elsewhere" for absolute / top pointers, either *)
 (* side of a merge.                                                        *)
